@@ -482,6 +482,12 @@ func checkReadArchive(s *kit.Session, f kit.Failer, c any, a c39Archive, data []
 		}
 		w.contents = append(w.contents, content)
 	}
+	opaquePayload := false
+	for _, e := range a.Entries {
+		if !e.isRegular() && e.Raw && e.Declared > 0 {
+			opaquePayload = true
+		}
+	}
 	total := 0
 	for name, got := range files {
 		total += len(got)
@@ -492,6 +498,14 @@ func checkReadArchive(s *kit.Session, f kit.Failer, c any, a c39Archive, data []
 		w := byName[name]
 		if w == nil && strings.HasSuffix(name, "/") {
 			w = byName[strings.TrimSuffix(name, "/")]
+		}
+		if w == nil && opaquePayload {
+			// The bytes that follow the header of a non-regular entry are not
+			// file data to a tar reader: it parses them as the next header(s).
+			// Whatever entry they happen to spell (the legacy signed checksum of
+			// a mostly-zero block matches now and then) is part of the archive
+			// as archive/tar defines it, not something ReadArchive made up.
+			continue
 		}
 		if w == nil {
 			s.Fail(f, c, "non-regular-or-unknown-entry-returned", "ReadArchive returned %q (%d bytes) which is not a regular entry of the archive", clipStr(name, 80), len(got))
